@@ -1,0 +1,117 @@
+//go:build verif
+
+package align
+
+// Contracts for property C10, second batch: the sampling wrappers (Sample, Rarefy, RarefySeqBag), the
+// bag-to-alignment conversion and the weighted draw rarefySeqBag. Comments only.
+
+// ---- seqBagToAlignment: the alignment takes over the row list and the name index of the bag ("same reference") ----
+
+// every row of the bag has the length of the first one
+//@ pure func c10b_samelen(sb *seqbag) bool = forall r :: 0 <= r && r < nrows(sb) ==> rowlen(sb, r) == rowlen(sb, 0)
+
+//@ func seqBagToAlignment
+//@   props C10
+//@   requires wf(sb)
+//@   ensures al != nil && fresh(al) && isalign(al)
+//@   ensures (err == nil) == c10b_samelen(sb)
+//@   ensures sameslice(al.seqs, sb.seqs) && al.seqmap == sb.seqmap && al.alphabet == sb.alphabet && al.ignoreidentical == sb.ignoreidentical
+//@   ensures err == nil ==> wfa(al) && al.length == (nrows(sb) == 0 ? -1 : rowlen(sb, 0))
+//@   modifies nothing
+//@   loop 1 in (*seqbag).IterateChar
+//@     invariant al != nil && fresh(al) && isalign(al) && err == nil && wf(sb)
+//@     invariant $i == 0 ==> al.length == -1
+//@     invariant $i > 0 ==> al.length == rowlen(sb, 0)
+//@     invariant forall r :: 0 <= r && r < $i ==> rowlen(sb, r) == rowlen(sb, 0)
+//@     decreases nrows(sb) - $i
+
+// ---- rarefySeqBag: nb weighted draws without replacement among the counted names; the result holds the rows drawn at least once ----
+
+// row q of the result is one of the rows of sb that has a count: same name, same residues (rowis: zz_contracts_rand_verif.go)
+//@ opaque func c10b_rrow(b *seqbag, sb *seqbag, counts map[string]int, q int) bool = exists r :: 0 <= r && r < nrows(sb) && rowis(b, sb, q, r) && has(counts, rowname(sb, r))
+// the keys the draws walk through: pairwise different, each one still has a positive remaining count
+//@ pure func c10b_keysok(keys []string, m map[string]int) bool = (forall j :: 0 <= j && j < len(keys) ==> has(m, keys[j]) && m[keys[j]] >= 1) && (forall j1, j2 :: 0 <= j1 && j1 < j2 && j2 < len(keys) ==> keys[j1] != keys[j2])
+//@ pure func c10b_sorted(keys []string) bool = forall j1, j2 :: 0 <= j1 && j1 < j2 && j2 < len(keys) ==> keys[j1] <= keys[j2]
+
+//@ func (*seqbag).rarefySeqBag
+//@   props C10 C19
+//@   requires wf(sb)
+//@   ensures err != nil ==> sample == nil
+//@   ensures err == nil ==> forall k string :: has(counts, k) ==> counts[k] > 0 && has(sb.seqmap, k)
+//@   ensures (exists k string :: has(counts, k) && (counts[k] <= 0 || !has(sb.seqmap, k))) ==> err != nil
+//@   ensures err == nil ==> sample != nil && fresh(sample) && wf(sample) && sample.alphabet == sb.alphabet && nrows(sample) <= nrows(sb)
+//@   ensures err == nil ==> forall q :: 0 <= q && q < nrows(sample) ==> c10b_rrow(sample, sb, counts, q)
+//@   ensures [C19] err == nil ==> forall q :: 0 <= q && q < nrows(sample) ==> fresh(row(sample, q).sequence)
+//@   modifies nothing
+//@   allowexit
+//@   loop 1
+//@     invariant err == nil && i == $i && 0 <= i && total >= 0 && len(tmpcountskeys) == len(counts) && fresh(tmpcountskeys)
+//@     invariant tmpcounts != nil && fresh(tmpcounts) && selected != nil && fresh(selected)
+//@     invariant forall k string :: visited(k) ==> has(counts, k) && counts[k] > 0 && has(sb.seqmap, k)
+//@     invariant forall k string :: has(tmpcounts, k) ==> visited(k) && tmpcounts[k] == counts[k]
+//@     invariant forall k string :: visited(k) ==> has(tmpcounts, k)
+//@     invariant forall k string :: !has(selected, k)
+//@     invariant forall j :: 0 <= j && j < i ==> visited(tmpcountskeys[j])
+//@     invariant forall j1, j2 :: 0 <= j1 && j1 < j2 && j2 < i ==> tmpcountskeys[j1] != tmpcountskeys[j2]
+//@   loop 2
+//@     invariant err == nil && 0 <= i && nb - i < total
+//@     invariant tmpcounts != nil && fresh(tmpcounts) && selected != nil && fresh(selected) && fresh(tmpcountskeys) && off(tmpcountskeys) == 0
+//@     invariant c10b_keysok(tmpcountskeys, tmpcounts)
+//@     invariant c10b_sorted(tmpcountskeys)
+//@     invariant forall k string :: has(tmpcounts, k) ==> has(counts, k) && has(sb.seqmap, k)
+//@     invariant forall k string :: has(selected, k) ==> has(counts, k) && has(sb.seqmap, k)
+//@     invariant forall k string :: has(counts, k) ==> counts[k] > 0 && has(sb.seqmap, k)
+//@     decreases nb - i
+//@   loop 3
+//@     decreases len(tmpcountskeys) - $i
+//@   loop 1 in (*seqbag).IterateAll
+//@     invariant err == nil && selected != nil && sample != nil && fresh(sample) && wf(sample) && sample.alphabet == sb.alphabet && sample.ignoreidentical == IGNORE_NONE && fresh(sample.seqmap) && fresh(sample.seqs)
+//@     invariant nrows(sample) <= $i
+//@     invariant forall k string :: has(selected, k) ==> has(counts, k)
+//@     invariant forall k string :: has(counts, k) ==> counts[k] > 0 && has(sb.seqmap, k)
+//@     invariant forall q :: 0 <= q && q < nrows(sample) ==> fresh(row(sample, q)) && allocated(row(sample, q).sequence) && c10b_rrow(sample, sb, counts, q)
+//@     invariant forall q :: 0 <= q && q < nrows(sample) ==> exists r :: 0 <= r && r < $i && rowname(sample, q) == rowname(sb, r)
+//@     invariant [C19] forall q :: 0 <= q && q < nrows(sample) ==> fresh(row(sample, q).sequence)
+//@     decreases nrows(sb) - $i
+
+// RarefySeqBag: the exported form (the *seqbag goes into the SeqBag interface unchanged)
+// (no clause "err != nil ==> sample == nil": the engine models an interface value as the pointer it holds, and on error this
+// function returns a NON-nil SeqBag interface holding a nil *seqbag -- see report.md, side observation)
+//@ func (*seqbag).RarefySeqBag
+//@   props C10 C19
+//@   requires wf(sb)
+//@   ensures err == nil ==> forall k string :: has(counts, k) ==> counts[k] > 0 && has(sb.seqmap, k)
+//@   ensures (exists k string :: has(counts, k) && (counts[k] <= 0 || !has(sb.seqmap, k))) ==> err != nil
+//@   ensures err == nil ==> sample != nil && fresh(sample) && wf(sample) && sample.alphabet == sb.alphabet && nrows(sample) <= nrows(sb)
+//@   ensures err == nil ==> forall q :: 0 <= q && q < nrows(sample) ==> c10b_rrow(sample, sb, counts, q)
+//@   ensures [C19] err == nil ==> forall q :: 0 <= q && q < nrows(sample) ==> fresh(row(sample, q).sequence)
+//@   modifies nothing
+//@   allowexit
+
+// Rarefy: the same draw on an alignment; the rows of the result are rows of a, so the conversion to an alignment cannot fail
+//@ func (*align).Rarefy
+//@   props C10 C19
+//@   requires wfa(a)
+//@   ensures err != nil ==> al == nil
+//@   ensures err == nil ==> forall k string :: has(counts, k) ==> counts[k] > 0 && has(a.seqmap, k)
+//@   ensures (exists k string :: has(counts, k) && (counts[k] <= 0 || !has(a.seqmap, k))) ==> err != nil
+//@   ensures err == nil ==> al != nil && fresh(al) && wfa(al) && al.alphabet == a.alphabet && nrows(al) <= nrows(a) && (nrows(al) > 0 ==> al.length == a.length)
+//@   ensures err == nil ==> forall q :: 0 <= q && q < nrows(al) ==> c10b_rrow(al, a, counts, q)
+//@   ensures [C19] err == nil ==> forall q :: 0 <= q && q < nrows(al) ==> fresh(row(al, q).sequence)
+//@   modifies nothing
+//@   allowexit
+
+// Sample: error iff nb is not in [1, n]; otherwise an alignment of nb rows, each one an original row (same name, same residues, own storage),
+// pairwise different (the result is well-formed, so its names are unique, and the names of a are unique); same length as a
+//@ func (*align).Sample
+//@   props C10 C19
+//@   requires wfa(a)
+//@   ensures (err == nil) == (1 <= nb && nb <= nrows(a))
+//@   ensures err != nil ==> al == nil
+//@   ensures err == nil ==> al != nil && fresh(al) && wfa(al) && nrows(al) == nb && al.alphabet == a.alphabet && al.length == a.length
+//@   ensures err == nil ==> forall k :: 0 <= k && k < nb ==> rowsrc(al, a, k)
+//@   ensures [C19] err == nil ==> forall k :: 0 <= k && k < nb ==> fresh(row(al, k).sequence)
+// every sampled row has the length of a: the conversion to an alignment cannot fail
+//@   assert_at github.com/evolbioinfo/goalign/align.seqBagToAlignment 1 : forall r :: 0 <= r && r < nrows(arg0) ==> rowsrc(arg0, a, r) && rowlen(arg0, r) == a.length
+//@   modifies nothing
+//@   allowexit
